@@ -299,7 +299,7 @@ def run_components(ctx, res, provider):
     M = ctx.model
     rows, reqs = [], []
     for _ in range(4000 if ctx.big else 700 * (1 + 2 * ctx.level)):
-        st = rng.choice(C14.STARTS[1:])
+        st = rng.choice(C14.STARTS[1:]) if rng.random() < 0.9 else None      # sometimes no DTSTART at all (absolute alarms only make sense then)
         en, du = rng.choice(C14.end_variants(st))
         als = []
         for _k in range(rng.choice([1, 2, 3])):
@@ -310,7 +310,8 @@ def run_components(ctx, res, provider):
         case = (rng.randrange(2), st, en, du, als)
         if not C14.parseable(case):
             continue
-        base = true_instant(st, provider, True)
+        # acknowledgement / snooze instants are placed around the start (around the absolute triggers' day when there is none)
+        base = true_instant(st if st is not None else ("u", 2020, 3, 29, 0, 30, 0), provider, True)
         c_h, s_h = rng.choice([None, -30, -2, 0, 1, 26, -0.4, 0.3]), rng.choice([None, None, -1, 1, 30])
         moz = rng.random() < 0.5
         local = rng.random() < 0.5
@@ -357,6 +358,19 @@ def run_components(ctx, res, provider):
             w[4] = inst(a["ack"])
             wa.append(w)
         arg = [wp, wa]
+        # direct oracle: the acknowledged-until of every alarm time is at least the component's own acknowledgement
+        # (DTSTAMP, or X-MOZ-LASTACK for a Thunderbird component), whatever else the component has or lacks
+        c_inst = inst(c_h)
+        if c_inst != S.NONE and isinstance(o[0], list) and o[0][:1] != ["err"]:
+            for entry in o[0]:
+                ack = entry[1]
+                if isinstance(ack, list) and ack[:1] == ["err"]:
+                    continue
+                if ack == S.NONE or ack < c_inst:
+                    res.fail("C15: an alarm time's acknowledged-until is earlier than the component's acknowledgement "
+                             "(DTSTAMP / X-MOZ-LASTACK), or absent", {"provider": provider, "ical": text},
+                             observed=ack, expected=[">=", c_inst])
+                    break
         rows.append(({"provider": provider, "ical": text, "local_zone": LOCAL if local else None}, o, case))
         reqs.append(("c15_component", arg + [S.oracle_for(S.zids_in(arg) | {S.ZONES.index(LOCAL) + 1}, provider),
                                              local_key(provider, local)]))
